@@ -4,7 +4,7 @@
     Imports only the model and the definitions, never a proof file. *)
 From Coq Require Import String.
 From Coq Require Import List Ascii ZArith Bool.
-From CGV Require Import Base.PyBase Base.PyVal Base.NxGraph Stereo.EzImpl Stereo.EzDefs.
+From CGV Require Import Base.PyBase Base.PyVal Base.NxGraph Dialect.DialectImpl Resolve.PipelineFull Stereo.EzImpl Stereo.EzDefs Stereo.EzStrings.
 Import ListNotations.
 Open Scope Z_scope.
 
@@ -57,11 +57,45 @@ Record case := {
   c_ident : list (Z * Z);            (* returned key -> atom id (found by the harness from the neighbourhoods; CHECKED below) *)
   c_chiral : list (Z * pystr);       (* atom id -> label as written *)
   c_rel : list (Z * Z * Z * Z * bool);  (* reference relations (l1, a1, a2, l2, cis) in atom ids *)
-  c_wb : list (Z * Z * bool * bool)     (* marked (ligand id, anchor id): ligand WRITTEN before its anchor;
+  c_wb : list (Z * Z * bool * bool);    (* marked (ligand id, anchor id): ligand WRITTEN before its anchor;
                                            ligand cut off from its anchor (mark written at both ends of the cut) *)
+  c_frags : list (pystr * pystr * (list (Z * attrs) * list (Z * Z * attrs)));
+                                        (* fragment name, fragment text, the graph read_fragments built for it
+                                           (nodes with element / chiral / ez_isomer_class / bonding, edges with order) *)
+  c_str : option pystr                  (* the whole CGsmiles string, for hydrogen-free inputs only (EzStrings.resolve_string) *)
 }.
 
-Definition corr_ok (c : case) : bool :=
+(** ---- the models FROM STRINGS (EzStrings) against the implementation *)
+Definition fo_check : float_oracle := fo_of_table [(S "0.5", Some (S "0.5"))].
+Definition restrict_attrs (keys : list pystr) (a : attrs) : attrs := filter (fun kv => str_in (fst kv) keys) a.
+Definition restrict_graph (nkeys ekeys : list pystr) (g : graph) : graph :=
+  map (fun n => {| nk := nk n; na := restrict_attrs nkeys (na n);
+                   nadj := map (fun wa => (fst wa, restrict_attrs ekeys (snd wa))) (nadj n) |}) g.
+Definition frag_keys : list pystr := [S "element"; S "chiral"; S "ez_isomer_class"; S "bonding"].
+(** the fragment graph built from the fragment TEXT by strip + pysmiles parser + template models has the nodes, the marks,
+    the labels, the descriptors and the bonds of the graph read_fragments built *)
+Definition frag_ok (f : pystr * pystr * (list (Z * attrs) * list (Z * Z * attrs))) : bool :=
+  let '(name, text, obs) := f in
+  match marked_template fo_check name text with
+  | Ok g => obs_eqb (observe (restrict_graph frag_keys [S "order"] g)) obs
+  | Err _ => false
+  end.
+Definition before_keys : list pystr := [S "element"; S "fragid"; S "chiral"; S "ez_isomer_class"; S "ez_isomer"].
+(** the whole model from the CGsmiles string reaches the molecule the annotation step received and the one returned *)
+Definition string_ok (c : case) : bool :=
+  match c_str c with
+  | None => true
+  | Some s =>
+      match resolve_string fo_check s, c_before c, c_ret c with
+      | Ok fo, Some b, Some r =>
+          graph_ez_eqb (restrict_graph before_keys [S "order"] (fo_m5 fo)) b
+          && graph_ez_eqb (restrict_graph before_keys [S "order"] (fo_mol fo)) r
+      | Err _, Some _, None => true
+      | _, _, _ => false
+      end
+  end.
+
+Definition corr_ok_step (c : case) : bool :=
   match c_before c with
   | None => true
   | Some g =>
@@ -72,6 +106,12 @@ Definition corr_ok (c : case) : bool :=
       | _, _ => false
       end
   end.
+
+Definition corr_ok (c : case) : bool := corr_ok_step c && forallb frag_ok (c_frags c) && string_ok c.
+(** which part disagrees (diagnosis only): 1 annotation step, 2 a fragment template, 3 the model from the string *)
+Definition corr_diag (c : case) : nat :=
+  if negb (corr_ok_step c) then 1%nat else if negb (forallb frag_ok (c_frags c)) then 2%nat
+  else if negb (string_ok c) then 3%nat else 0%nat.
 
 (** ------------------------------------------------------------------ the property's clauses *)
 Fixpoint zlookup (k : Z) (m : list (Z * Z)) : option Z :=
